@@ -5,7 +5,8 @@ import itertools
 
 from vmon import env, hooks
 from vmon.aromgen import (STANDARD, ANCHORED, EXOTIC, ALL_KINDS, standard_system, substituted_system,
-                          cage_system, CAGE_NAMES, pi_set, link_systems, single_ring_bonds, poly_aryl)
+                          cage_system, CAGE_NAMES, pi_set, link_systems, single_ring_bonds, poly_aryl, union)
+from vmon.molgen import random_tree_mol
 from vmon.hooks import MON, call_guard
 from vmon.matching import exact_pm, judge_matching, is_bipartite
 from vmon.molgen import spell
@@ -43,7 +44,7 @@ def timeout(tier):
 def floors(tier):
     return {"M4.calls": 3000, "direct.calls": 20000, "standard.spellings": 1500, "standard.accepted": 300,
             "standard.rejected_ok": 100, "anchored.spellings": 800, "exotic.spellings": 500, "cage.spellings": 20,
-            "M4.nonbipartite": 100, "M4.bipartite": 1000, "direct.bipartite": 2000, "direct.matchable": 3000, "set:kinds": 30, "order_groups": 500, "linked.groups": 300, "polyaryl.groups": 500, "M4.calls_with_several_searches": 200}
+            "M4.nonbipartite": 100, "M4.bipartite": 1000, "direct.bipartite": 2000, "direct.matchable": 3000, "set:kinds": 30, "order_groups": 500, "linked.groups": 300, "polyaryl.groups": 500, "multifragment.groups": 500, "M4.calls_with_several_searches": 200}
 
 
 def ceilings(tier):
@@ -325,6 +326,13 @@ def run(ctx):
         m, kind_of, ae = standard_system(rng, sizes=sizes, chords=0 if len(sizes) <= 3 else None,
                                          nrings=rng.choice([3, 4, 6, 8, 10]) if len(sizes) <= 3 else None)
         A.group(m, kind_of, ae, "standard", rng.choice([4, 4, 6, 8]), "G6-standard")
+    for i in range(60 if quick else 2000):
+        # several fragments: aromatic systems as 2nd, 3rd ... component, next to saturated fragments
+        parts = [standard_system(rng, nrings=rng.choice([1, 1, 2])) for _ in range(rng.choice([2, 2, 3, 5]))]
+        extra = [random_tree_mol(rng, rng.choice([1, 3, 6]), p_ring=0.2, p_chiral=0, p_stereo=0) for _ in range(rng.choice([0, 1, 2]))]
+        m, kind_of, ae = union(parts, extra)
+        A.group(m, kind_of, ae, "standard", 4, "G6-multifragment")
+        ctx.count("multifragment.groups")
     for i in range(60 if quick else 2000):
         # biaryl / fluorene-type: ring systems joined by explicit single bonds between aromatic atoms, also as ring
         # closures with '-' on one digit only; larger even rings so that the single bond COULD be double in a matching
